@@ -117,6 +117,23 @@ fn main() {
         }
         rep.specs.push(st);
     }
+    // determinism of the exploration itself: re-run the cheap checks and require identical counts
+    // (the real-rayon conformance part depends on OS scheduling by design and is excluded)
+    let mut rerun = 0;
+    for (c, st) in selected.iter().zip(rep.specs.iter()) {
+        if st.wall_s < 0.3 && !st.spec.contains("real-rayon") && rerun < 40 {
+            rerun += 1;
+            let again = c.run();
+            if again.states != st.states || again.transitions != st.transitions || again.outcomes != st.outcomes || again.found.len() != st.found.len() {
+                println!(
+                    "ENGINE-ERROR nondeterministic exploration of {}: states {}/{} transitions {}/{} outcomes {}/{}",
+                    st.spec, st.states, again.states, st.transitions, again.transitions, st.outcomes, again.outcomes
+                );
+                std::process::exit(2);
+            }
+        }
+    }
+    extra.insert("determinism_reruns_with_identical_counts".into(), serde_json::json!(rerun));
     if rep.specs.is_empty() {
         println!("ENGINE-ERROR no check ran for {prop}");
         std::process::exit(2);
